@@ -135,7 +135,7 @@ func build(c *conCase, seq int) (l *live, herr error) {
 			parent = tu
 		}
 		l.tu = parent
-	case "rect-cid", "wide-cid":
+	case "rect-cid", "wide-cid", "full-cid":
 		f := &cmap.File{Name: fmt.Sprintf("Verif-%d-R", seq), ROS: ros, WMode: wmode, CodeSpaceRange: csr}
 		for _, r := range c.File.Ranges {
 			f.CIDRanges = append(f.CIDRanges, cmap.Range{First: toBytes(r.First), Last: toBytes(r.Last), Value: cmap.CID(*r.V)})
@@ -204,6 +204,26 @@ func query(c *conCase, stage string, fc *cmap.File, ft *cmap.ToUnicodeFile, code
 		for _, p := range c.Probes {
 			v := fc.LookupCID(toBytes(p))
 			rec.Probes = append(rec.Probes, probeRec{C: p, OK: true, V: cidVal(int(v))})
+		}
+		if c.Kind == "full-cid" {
+			// an enumeration of exactly as many codes as the enumeration budget
+			// allows: counted, the first and the last three entries kept
+			var tail []entry
+			for code, v := range fc.All(codec) {
+				buf = codec.AppendCode(buf[:0], code)
+				e := entry{C: toInts(buf), V: cidVal(int(v))}
+				rec.AllCount++
+				if rec.AllCount <= 3 {
+					rec.All = append(rec.All, e)
+				} else {
+					tail = append(tail, e)
+					if len(tail) > 3 {
+						tail = tail[1:]
+					}
+				}
+			}
+			rec.All = append(rec.All, tail...)
+			return rec
 		}
 		for code, v := range fc.All(codec) {
 			buf = codec.AppendCode(buf[:0], code)
